@@ -33,6 +33,13 @@ Definition redrill (P T : list Q) (maxdd : Q) : redrilled :=
     let Pn := firstn (length P) (tile (firstn idx P) (S r)) in
     {| rd_P := Pn; rd_T := firstn (length Pn) (tile (firstn idx T) (S r)); rd_count := r; rd_index := idx |}.
 
+(* One call of WellBores.Calculate: redrill.value is assigned only when the step redrills, so the count of an earlier
+   call on the same object persists otherwise (district heating calls Calculate twice; the reservoir history of the
+   second call is recomputed from scratch, only this count is carried over). [prev] = 0 on a fresh object. *)
+Definition redrill_call (prev : nat) (P T : list Q) (maxdd : Q) : redrilled :=
+  let r := redrill P T maxdd in
+  if Nat.eqb (rd_index r) 0 then {| rd_P := rd_P r; rd_T := rd_T r; rd_count := prev; rd_index := 0 |} else r.
+
 (* ---- reflective checkers (evaluated by vm_compute on the series the real code produced) ---- *)
 
 Definition slack (tol x : Q) : Q := tol * Qmax 1 (Qabs x).
@@ -138,13 +145,13 @@ Definition run_oracle_all (a : list Q) : res :=
   | _ => Err E_ARGS
   end.
 
-(* flat: [maxdd; n] ++ P (n) ++ T (n)  ->  P' ++ T' ++ [count]  (the step alone, for arbitrary histories) *)
+(* flat: [maxdd; n; count left by an earlier call] ++ P (n) ++ T (n)  ->  P' ++ T' ++ [count]  (the step alone, arbitrary histories) *)
 Definition run_redrill (a : list Q) : res :=
   match a with
-  | maxdd :: n :: rest =>
+  | maxdd :: n :: prev :: rest =>
       let n := qnat n in
       if Nat.eqb (length rest) (2 * n) && negb (Nat.eqb n 0)
-      then let rd := redrill (firstn n rest) (skipn n rest) maxdd in
+      then let rd := redrill_call (qnat prev) (firstn n rest) (skipn n rest) maxdd in
            Vals (rd_P rd ++ rd_T rd ++ [natQ (rd_count rd)])
       else Err E_ARGS
   | _ => Err E_ARGS
